@@ -615,8 +615,8 @@ theorem ready_of_started {s : Ev} (h : Started s.jobs) (hG : GenLe s.semGen s.jo
 
 /-- the evaluator after `submit` of a new batch on a fresh semaphore -/
 theorem ready_after_submit {s : Ev} (nAsk : Nat) (hst : Started s.jobs) (hG : GenLe s.semGen s.jobs)
-    (hW : nAsk ≤ s.W) : Ready (submitCap { s with semGen := s.semGen + 1 } nAsk).1 := by
-  obtain ⟨extra, h1, h2, h3, _, h5, h6, _⟩ := submitCap_spec nAsk { s with semGen := s.semGen + 1 }
+    (hW : nAsk ≤ s.W) : Ready (submitCap (askStep s) nAsk).1 := by
+  obtain ⟨extra, h1, h2, h3, _, h5, h6, _⟩ := submitCap_spec nAsk (askStep s)
   simp only at h1 h5 h6
   refine ⟨?_, ?_, ?_⟩
   · rw [h1]
@@ -659,9 +659,9 @@ theorem loop_live (strict : Bool) (target : Int) :
     dsimp only
     split
     · have hready := ready_after_submit nAsk hst hG (by omega)
-      obtain ⟨extra, _, _, _, _, h5, _, _⟩ := submitCap_spec nAsk { s with semGen := s.semGen + 1 }
+      obtain ⟨extra, _, _, _, _, h5, _, _⟩ := submitCap_spec nAsk (askStep s)
       simp only at h5
-      generalize submitCap { s with semGen := s.semGen + 1 } nAsk = sub at hready h5 ⊢
+      generalize submitCap (askStep s) nAsk = sub at hready h5 ⊢
       split
       · exact ⟨by simp, by simp, fun _ => ⟨hready, h5⟩⟩
       · exact ⟨by simp, by simp, fun h => by simp [SettledStop] at h⟩
@@ -672,10 +672,10 @@ theorem loop_live (strict : Bool) (target : Int) :
     dsimp only
     split
     · have hready := ready_after_submit nAsk hst hG (by omega)
-      have hrsub := rep_submitCap nAsk { s with semGen := s.semGen + 1 } (rep_cfg (s := s) rfl rfl rfl hrep)
-      obtain ⟨extra, _, _, h3, h4, h5, _, h7⟩ := submitCap_spec nAsk { s with semGen := s.semGen + 1 }
+      have hrsub := rep_submitCap nAsk (askStep s) (rep_cfg (s := s) rfl rfl rfl hrep)
+      obtain ⟨extra, _, _, h3, h4, h5, _, h7⟩ := submitCap_spec nAsk (askStep s)
       simp only at h4 h5
-      generalize submitCap { s with semGen := s.semGen + 1 } nAsk = sub at hready hrsub h4 h5 h7 ⊢
+      generalize submitCap (askStep s) nAsk = sub at hready hrsub h4 h5 h7 ⊢
       split
       · exact ⟨by simp, by simp, fun _ => ⟨hready, h5⟩⟩
       · next hnr =>
